@@ -114,7 +114,7 @@ def rule_recipients(program, ctx):
     for l in loops:
         body_awaits = any(isinstance(n, ast.Await) for s in l.body for n in ast.walk(s))
         it = l.iter
-        copied = isinstance(it, ast.Call) and call_name(it) in ("list", "tuple", "set", "frozenset", "sorted") or isinstance(it, ast.Name)
+        copied = isinstance(it, ast.Call) and call_name(it) in ("list", "tuple", "set", "frozenset", "sorted") or isinstance(it, (ast.Name, ast.ListComp, ast.SetComp))
         if body_awaits and not copied:
             ctx.bad(finding_at(P, rid, l, "the live peer table is iterated while the loop body awaits (drain): a worker connecting or leaving during the suspension raises RuntimeError, "
                                "the bare except ends this sender's relay loop and its later ids reach nobody"))
@@ -132,8 +132,12 @@ def rule_recipients(program, ctx):
                 return False
 
             comp_guard = False
-            for l2, d2 in alias_loops:
-                if l2 is l and isinstance(d2.value, (ast.ListComp, ast.GeneratorExp, ast.SetComp)):
+            comp_sources = [d2.value for l2, d2 in alias_loops if l2 is l] + [l.iter]
+            for cv in comp_sources:
+                if isinstance(cv, (ast.ListComp, ast.GeneratorExp, ast.SetComp)):
+                    class _D:  # same shape as an alias binding
+                        value = cv
+                    d2 = _D
                     g = d2.value.generators[0]
                     gv = g.target.id if isinstance(g.target, ast.Name) else None
                     comp_guard = any(isinstance(c, ast.Compare) and isinstance(c.ops[0], (ast.NotEq, ast.IsNot)) and {dotted(c.left), dotted(c.comparators[0])} == {gv, "writer"} for i in g.ifs for c in ast.walk(i)) and dotted(d2.value.elt) == gv
@@ -212,9 +216,14 @@ def rule_announce(program, ctx):
         if call_name(c).endswith(".notify_other_processes") and qual_of(c) not in ("DBStorage.add_event", "LMDBStorage.post_save"):
             ctx.bad(finding_at(P, rid, c, f"{qual_of(c)} announces to other workers outside the audited sites (SQL: post_save/process_tags run inside the transaction, before commit)"))
     np_ = program.func("nostr_relay.storage.base:BaseStorage.notify_other_processes")
-    t = next((n for n in walk_no_nested(np_) if isinstance(n, ast.If)), None)
-    if t is not None and ast.unparse(t.test) == "self.notifier" and any(isinstance(c, ast.Call) and call_name(c) == "self.notifier.notify" for c in ast.walk(t)):
-        ctx.ok(rid, t, "notify_other_processes: sends iff self.notifier")
+    cfgn = cfg_of(np_)
+    sends = cfgn.stmt_nodes(lambda s: any(call_name(c) == "self.notifier.notify" for c in own_calls(s)), kinds=("stmt",))
+    has = test_edges(cfgn, lambda e, p: p and dotted(e) == "self.notifier")
+    hasnot = test_edges(cfgn, lambda e, p: (not p) and dotted(e) == "self.notifier")
+    # sent only when a notifier exists, and always when it exists (the send is not reachable only through the 'no notifier' edge and every
+    # normal exit on the 'notifier exists' side passed the send)
+    if sends and has and not must_pass(cfgn, has, sends) and must_pass(cfgn, hasnot, sends) and not cfgn.find_path([cfgn.entry], [cfgn.exit], avoid_nodes=set(sends), kinds=NORMAL, avoid_edge_kinds=hasnot):
+        ctx.ok(rid, cfgn.ast_of(sends[0]), "notify_other_processes: sends iff self.notifier")
     else:
         ctx.bad(finding_func(P, rid, np_, "notify_other_processes no longer sends through self.notifier when it exists", text="def notify_other_processes(...)"))
     su = program.func("nostr_relay.storage.base:BaseStorage.setup")
